@@ -124,6 +124,50 @@ pub fn run_sgo(toks: &[&str]) -> String {
     format!("K:{} N:{}", k, n)
 }
 
+/// pubs <n> { as_s as_n va_s va_n bound drift status }*n : n publications through the real writer (no shim),
+/// a client that attached after the first one calling snapshot() after each, and a client that attaches
+/// afresh after each.  -> per publication  L:<record the long-lived client obtained> F:<record the fresh one obtained>
+pub fn run_pubs(toks: &[&str]) -> String {
+    static SEQ: std::sync::atomic::AtomicUsize = std::sync::atomic::AtomicUsize::new(0);
+    let n: usize = p(toks[0]);
+    let path = scratch_dir().join(format!("pubs-{}", SEQ.fetch_add(1, std::sync::atomic::Ordering::SeqCst)));
+    let _ = std::fs::remove_file(&path);
+    let mut w = match ShmWriter::new(&path) {
+        Ok(w) => w,
+        Err(e) => return format!("W:err:{:?}", e.kind()),
+    };
+    let cpath = std::ffi::CString::new(path.to_str().unwrap()).unwrap();
+    let mut long_lived: Option<ShmReader> = None;
+    let show = |r: &mut ShmReader| match r.snapshot() {
+        Err(e) => format!("snapshot-failed:{}", shm_err(e)),
+        Ok(c) => {
+            let v = crate::engine::cells_of(c);
+            format!("{}:{}:{}:{}:{}:{}:{}", v[0], v[1], v[2], v[3], v[4], v[5] & 0xffff_ffff, v[6])
+        }
+    };
+    let mut out = Vec::new();
+    for k in 0..n {
+        let t: Vec<i64> = toks[1 + 7 * k..8 + 7 * k].iter().map(|s| p::<i64>(s)).collect();
+        w.write(&crate::client::mk_ceb(&t));
+        if long_lived.is_none() {
+            long_lived = ShmReader::new(cpath.as_c_str()).ok();
+        }
+        let l = match long_lived.as_mut() {
+            Some(r) => show(r),
+            None => "open-failed".to_string(),
+        };
+        let f = match ShmReader::new(cpath.as_c_str()) {
+            Ok(mut r) => show(&mut r),
+            Err(e) => format!("open-failed:{}", shm_err(e)),
+        };
+        out.push(format!("L:{} F:{}", l, f));
+    }
+    drop(long_lived);
+    drop(w);
+    let _ = std::fs::remove_file(&path);
+    out.join(" ")
+}
+
 pub fn run_wrt(toks: &[&str]) -> String {
     let path = toks[0];
     let t: Vec<i64> = toks[1..8].iter().map(|s| p::<i64>(s)).collect();
